@@ -525,7 +525,67 @@ func runC19(tier string, seed int64, si, sn int, rep *monitor.Report, note func(
 			}
 		}
 	}
+	// two requests without a refresh in between (what a scan does: force-tainted batch, then the reaper batch):
+	// the second must be judged against what the first really removed
+	for min := int64(0); min <= 3; min++ {
+		for extra := int64(1); extra <= 5; extra++ {
+			for first := 1; first <= 3; first++ {
+				for failK := 0; failK <= first; failK++ {
+					for second := 1; second <= 3; second++ {
+						idx++
+						if idx%sn != si {
+							continue
+						}
+						desired := min + extra
+						if int64(first+second) > desired {
+							continue
+						}
+						evals++
+						c19Two(rep, min, desired, first, failK, second)
+					}
+				}
+			}
+		}
+	}
 	return Outcome{Evaluations: evals}
+}
+
+func c19Two(rep *monitor.Report, min, desired int64, first, failK, second int) {
+	const P = "C19"
+	fx, err := newAWS(min, desired+5, desired, int(desired), cloudprovider.AWSNodeGroupConfig{}, "subnet-a")
+	if err != nil {
+		return
+	}
+	fx.F.Reset()
+	fx.F.Ordinal = map[string]map[int]sim.FaultKind{}
+	if failK > 0 {
+		fx.F.Ordinal[sim.AwsTermASG] = map[int]sim.FaultKind{failK: sim.FThrottle}
+	}
+	call(func() error { return fx.NG.DeleteNodes(fx.Nodes[:first]...) })
+	fx.F.Ordinal = nil
+	realDesired := fx.ASG.Desired
+	from := len(fx.J.Events)
+	req := fx.Nodes[first : first+second]
+	err2, pv := call(func() error { return fx.NG.DeleteNodes(req...) })
+	calls := 0
+	for _, e := range fx.J.Events[from:] {
+		if e.API == sim.AwsTermASG {
+			calls++
+		}
+	}
+	breach := realDesired <= min || realDesired-int64(second) < min
+	rep.Covered(P, fmt.Sprintf("delnodes:second-request:first-failed=%v:breach=%v", failK > 0, breach))
+	desc := fmt.Sprintf("second DeleteNodes(%d nodes) after a first request of %d (terminate call %d failed) on min=%d, desired %d -> %d", second, first, failK, min, desired, realDesired)
+	if pv != nil {
+		rep.Violate(P, "panic", "%s panicked: %v", desc, pv)
+		return
+	}
+	if breach && (err2 == nil || calls != 0) {
+		rep.Violate(P, "second-request-breach-not-refused", "%s: err=%v, %d terminate calls; the request breaches the minimum and must be refused as a whole", desc, err2, calls)
+	}
+	if !breach && (err2 != nil || calls != second) {
+		rep.Violate(P, "second-request-wrongly-refused", "%s: err=%v, %d terminate calls", desc, err2, calls)
+	}
 }
 
 func c19One(rep *monitor.Report, min, desired int64, want, foreignAt, failK int) {
